@@ -39,7 +39,7 @@ theorem hasCur_setCurBuf (s : AState) (b : ABuf) (h : s.HasCur) : (s.setCurBuf b
     in order, and the trailing context stays unread. -/
 theorem match_conserves (M : Matcher) (cfg : Cfg) (s : AState) (inp : List UInt8) (len rule : Nat)
     (p : List UInt8) (h : s.HasCur)
-    (hfit : (cfg.yylmax != 0 && decide (p.length + len ≥ cfg.yylmax)) = false) :
+    (hfit : (cfg.yylmax != 0 && decide (p.length + M.fitLen rule len inp ≥ cfg.yylmax)) = false) :
     let s' := beginMatch M cfg s inp len rule p
     s'.text = p ++ inp.take (M.headLen rule len inp) ∧ unread s' = inp.drop (M.headLen rule len inp) ∧
       s'.text.drop p.length ++ unread s' = inp := by
